@@ -480,9 +480,18 @@ impl Writer {
     fn merge(&mut self) -> Result<(), Error> {
         let result = self.merge_files();
         if result.is_err() {
-            // The failed merge may have left files behind. The entries that are appended from
-            // now on have to go into a file above those, otherwise they are hidden by the
-            // older entries that the merge copied once the storage gets reopened.
+            // The failed merge may have left files behind, they are the ones above the active
+            // file. Their hint files can be incomplete, without them the data files get scanned
+            // when the storage is reopened.
+            let path = self.ctx.conf.path.as_path();
+            for fileid in utils::sorted_fileids(path)? {
+                if fileid > self.active_fileid {
+                    let _ = fs::remove_file(utils::hintfile_name(path, fileid));
+                }
+            }
+            // The entries that are appended from now on have to go into a file above those,
+            // otherwise they are hidden by the older entries that the merge copied once the
+            // storage gets reopened.
             self.new_active_datafile(self.next_fileid()?)?;
         }
         result
